@@ -180,6 +180,8 @@ func fixedCases() []corr.Case {
 			mk("fixed-locks", "locks tklock-i64 6 "+rt, "acq 0 rs "+k5+","+k9+","+k5, "rel 0 r "+k5, "acq 1 w "+k5, "rel 0 rs "+k5+","+k9, "rel 1 w "+k5, "acq 2 ws "+k5+","+k5, "acq 2 rs "+k9+","+k9, "rel 2 rs "+k9+","+k9),
 			mk("fixed-locks", "locks tklock-str 3 "+rt, "acq 0 w "+keyToken("str", "61"), "acq 1 rs "+keyToken("str", "61")+","+keyToken("str", "62"), "rel 0 ws "+keyToken("str", "61"), "rel 1 r "+keyToken("str", "61"), "rel 1 r "+keyToken("str", "62")),
 			mk("fixed-locks", "locks klock 2 "+rt, "acq 0 r "+keyToken("int", "7"), "acq 1 r "+keyToken("int", "7"), "acq 2 w "+keyToken("int", "7"), "rel 0 r "+keyToken("int", "7"), "rel 1 r "+keyToken("int", "7"), "rel 2 w "+keyToken("int", "7")),
+			mk("fixed-locks", "locks semap-r2 73 "+rt, "acq 0 r "+keyToken("str", "6b"), "acq 1 r "+keyToken("str", "6b"), "acq 2 r "+keyToken("str", "6a"), "acq 3 r "+keyToken("str", "6b"), "rel 2 r "+keyToken("str", "6a"), "rel 0 r "+keyToken("str", "6b"), "rel 1 r "+keyToken("str", "6b"), "rel 3 r "+keyToken("str", "6b")),
+			mk("fixed-locks", "locks semap-r1 3 "+rt, "acq 0 r "+keyToken("int", "7"), "acq 1 r "+keyToken("int", "7"), "rel 0 r "+keyToken("int", "7"), "acq 2 w "+keyToken("int", "7"), "rel 1 r "+keyToken("int", "7"), "rel 2 w "+keyToken("int", "7")),
 			mk("fixed-locks", "locks semap 73 "+rt, "acq 0 w "+keyToken("str", "6b"), "acq 1 r "+keyToken("str", "6b"), "rel 0 w "+keyToken("str", "6b"), "acq 2 r "+keyToken("str", "6b"), "acq 3 w "+keyToken("str", "6b"), "rel 1 r "+keyToken("str", "6b"), "rel 2 r "+keyToken("str", "6b"), "rel 3 w "+keyToken("str", "6b")),
 		)
 		a, b, c := keyToken("int", "1"), keyToken("int", "2"), keyToken("int", "3")
@@ -271,7 +273,8 @@ func genWideLRU(r *rng.R, m int) corr.Case {
 func genLocks(r *rng.R, m int) corr.Case {
 	n := primes[r.Intn(len(primes))]
 	rt := r.Pick("simple", "xhash")
-	kind := r.Pick("klock", "semap", "tklock-i64", "tklock-i64", "tklock-str")
+	kind := r.Pick("klock", "semap", "semap-r1", "semap-r2", "semap-r3", "tklock-i64", "tklock-i64", "tklock-str")
+	capR := map[string]int{"semap": 10, "semap-r1": 1, "semap-r2": 2, "semap-r3": 3}[kind]
 	var pool []string
 	switch kind {
 	case "tklock-i64":
@@ -301,12 +304,16 @@ func genLocks(r *rng.R, m int) corr.Case {
 		write bool
 	}
 	free := func(k string, write bool) bool {
+		readers := 0
 		for _, x := range holds {
 			if x.k == k && (write || x.write) {
 				return false
 			}
+			if x.k == k {
+				readers++
+			}
 		}
-		return true
+		return write || capR == 0 || readers < capR
 	}
 	api := func(write, multi bool) string {
 		s := "r"
@@ -370,6 +377,9 @@ func genLocks(r *rng.R, m int) corr.Case {
 		}
 		t := r.Intn(4)
 		write := r.Chance(1, 2)
+		if capR > 0 && capR < 10 {
+			write = r.Chance(1, 4) // mostly readers: the ratio is reached
+		}
 		multi := multiOK && r.Chance(1, 2)
 		ks := []string{pool[r.Intn(len(pool))]}
 		if multi && r.Chance(1, 2) {
@@ -418,6 +428,9 @@ func genCase(r *rng.R, tier string, i int) corr.Case {
 	}
 	m := r.Range(20, 60)
 	cls := r.Intn(100)
+	if tier != "quick" && (cls == 92 || cls == 93) && !r.Chance(1, 6) {
+		cls = 0 // the two expensive classes (child processes, thousands of keys) keep their absolute number in the big tiers
+	}
 	switch {
 	case cls >= 64 && cls < 76: // wide LRU against one plain LRU per shard (small per-shard capacity, colliding keys)
 		return genWideLRU(r, m)
